@@ -335,7 +335,7 @@ def build_request(ex, meta):
         r["trait"] = o["trait"]
     if "derive" in o:
         r["derive_keep"] = [x for x in o["derive"].split(",") if x and x != "Structural"]
-    for k in ("index_recv", "drop_calls", "opaque_macros", "mut_params", "str_params", "into_vec", "iter_on", "iter_vec", "keyed_mut_iter"):
+    for k in ("index_recv", "drop_calls", "opaque_macros", "mut_params", "str_params", "into_vec", "iter_on", "iter_vec", "keyed_mut_iter", "deref_params"):
         if k in o:
             r[k] = o[k].split(",")
     if "param_types" in o:
@@ -354,7 +354,8 @@ def build_request(ex, meta):
             r["slice_tail"] = o["slice_tail"].replace("~", " ")
     if "slice_from" in o or "slice_to" in o:
         r["slice"] = {"from": o.get("slice_from", "").replace("~", " ") or None,
-                      "to": o.get("slice_to", "").replace("~", " ") or None}
+                      "to": o.get("slice_to", "").replace("~", " ") or None,
+                      "tail": o.get("slice_tail", "").replace("~", " ") or None}
     return r
 
 
